@@ -212,6 +212,21 @@ class C16(Check):
         phase(self.rule_stream, ctx, im)
         phase(self.boundary, ctx, im)
 
+    def search(self, ctx):
+        """an obligation or the correspondence broke and the run found no failing input yet: look for one on the
+        implementation with the same streams (oracle included) under three other seeds at quick size -- other cases, a
+        few minutes at most -- stopping at the first violation (the default, one rerun at thorough size, takes 10 min)"""
+        ctx.search_mode = True
+        seed0 = ctx.seed
+        try:
+            for k in (1, 2, 3):
+                ctx.seed = seed0 * 1000 + 7919 * k
+                self.run(ctx)
+                if ctx.violations:
+                    break
+        finally:
+            ctx.seed = seed0
+
     # -- the model's isspace table against CPython ------------------------------------------------
     def whitespace_table(self, ctx):
         if not ctx.model_ok:
